@@ -9,6 +9,16 @@ VARIANT_NAMES = ["Alpha", "BetaGamma", "Unit", "Point", "WithData", "Other", "Ki
 TYPE_NAMES = ["Widget", "Gadget", "Node", "Tree", "Config", "Shape", "Event", "Record", "Leaf", "Payload", "Color", "Mode"]
 
 
+CUSTOM_DEFAULTS = [
+    ("u32", "7"), ("i64", "-3"), ("String", '"preset".to_string()'), ("bool", "true"), ("f64", "1.5"),
+    ("Vec<i64>", "vec![1, 2]"), ("Vec<String>", 'vec!["a".to_string()]'),
+    ("::std::collections::BTreeMap<String, String>", '[("tier".to_string(), "free".to_string())].into_iter().collect()'),
+    ("::std::collections::HashMap<String, u32>", '[("n".to_string(), 3u32)].into_iter().collect()'),
+    ("::std::collections::BTreeSet<String>", '["u".to_string()].into_iter().collect()'),
+    ("Option<u32>", "Some(5)"), ("Option<String>", 'Some("x".to_string())'), ("(u8, bool)", "(9, true)"),
+]
+
+
 class U:
     def __init__(self, r):
         self.r = r
@@ -16,6 +26,7 @@ class U:
         self.names = []      # defined so far (usable by value)
         self.all_names = []
         self.default_ok = set()   # types implementing Default
+        self.helpers = []
 
     def chance(self, p):
         return self.r.random() < p
@@ -67,6 +78,16 @@ class U:
         for fname in names:
             t, has_default = self.ty(0, self_name)
             attrs = []
+            if allow_attrs and self.chance(0.12):
+                # a member with its own default function (schemars records the value it returns as the schema default)
+                t, expr = r.choice(CUSTOM_DEFAULTS)
+                fn = "dflt_%s_%s_%d" % (self_name.lower(), fname, len(self.helpers))
+                self.helpers.append("pub fn %s() -> %s { %s }\n" % (fn, t, expr))
+                attrs.append('#[serde(default = "%s")]' % fn)
+                has_default = False
+                out.append((fname, t, attrs))
+                all_default = False
+                continue
             if allow_attrs:
                 if has_default and self.chance(0.2):
                     attrs.append("#[serde(default)]")
@@ -184,6 +205,6 @@ def gen_universe(r):
     """Returns (rust source of the type definitions, root type names, kinds)."""
     u = U(r)
     kinds = u.build()
-    src = "\n".join(s for _, s in u.defs)
+    src = "\n".join(s for _, s in u.defs) + "\n" + "".join(u.helpers)
     roots = list(u.all_names)
     return src, roots, kinds
